@@ -30,7 +30,7 @@ sim::Json generate(const std::string& tier, uint64_t seed, uint64_t index) {
   go.want_names = true; go.max_depth = 3;
   gen::Model m = gen::generate(rng, go);
   for (auto& v : m.vars) if (v.lb > v.ub) v.ub = v.lb;
-  sim::Json sc = model_scenario(m, true);
+  sim::Json sc = model_scenario(m, true, rng.chance(0.3));
   static const int modes[] = {NAMES_NONE, NAMES_FULL, NAMES_FULL, NAMES_FULL, NAMES_SHORT, NAMES_CRLF, NAMES_COL_ONLY};
   int nm = modes[rng.below(7)];
   add_names_files(sc, m, nm);
@@ -104,7 +104,14 @@ void judge(const sim::Json& sc, const RunRecord& rec, sim::RunResult& r) {
       else if (o.iobj == 0 && no >= 1 && o.name != origs[(size_t)(n + m + nl)]) flag("UNFAITHFUL_NAME", "obj", "objective 1 should be named '" + origs[(size_t)(n + m + nl)] + "', the solver got '" + o.name + "'");
     }
     // (4) original linear rows that reach the solver unchanged keep their name; (5) derived items extend a source name
-    auto derived_ok = [&](const std::string& nme) { for (auto& o : origs) if (!o.empty() && nme.compare(0, o.size(), o) == 0) return true; return false; };
+    // SOS sets declared through .sosno/.ref or .sos/.sosref suffixes are modelling items without a name of their own:
+    // the generated SOS1_<n>_ / SOS2_<n>_ / SOS2_PL_<n>_ is their name, and what is derived from them extends it
+    bool has_sos_suffix = sc["model_has_sos"].as_bool();
+    auto derived_ok = [&](const std::string& nme) {
+      for (auto& o : origs) if (!o.empty() && nme.compare(0, o.size(), o) == 0) return true;
+      if (has_sos_suffix && (nme.compare(0, 5, "SOS1_") == 0 || nme.compare(0, 5, "SOS2_") == 0) && nme.size() > 6) return true;
+      return false;
+    };
     for (size_t j = (size_t)n; j < sm.vars.size(); ++j)
       if (!sm.vars[j].name.empty() && !derived_ok(sm.vars[j].name)) flag("UNDERIVED_NAME", "var", "auxiliary variable " + std::to_string(j) + " is named '" + sm.vars[j].name + "', which extends no original item's name");
     for (auto& c : sm.cons) {
